@@ -23,16 +23,53 @@ import (
 )
 
 type params struct {
-	Entry    string `json:"entry"`          // exchange | conn | conn-pfs-perm | conn-pfs-temp | conn-regen-404
-	SilentAt int    `json:"silent_at"`      // the peer stops before its k-th message of the targeted exchange (1..3); 0 = honest
-	Deadline string `json:"deadline"`       // caller context: "none" | "1h"
+	Entry    string `json:"entry"`            // exchange | conn | conn-pfs-perm | conn-pfs-temp | conn-regen-404
+	SilentAt int    `json:"silent_at"`        // the peer stops before its k-th message of the targeted exchange (1..3); 0 = honest
+	Deadline string `json:"deadline"`         // caller context: "none" | "1h"
 	Pre404   bool   `json:"pre404,omitempty"` // before going silent the peer answers the pending read with the transport error -404 (which the client skips and reads again)
-	Skew     string `json:"skew,omitempty"` // "+1h": the injected clock (Options.Clock, e.g. NTP-corrected) runs one hour ahead of the system time that timers live on
+	Skew     string `json:"skew,omitempty"`   // "+1h": the injected clock (Options.Clock, e.g. NTP-corrected) runs one hour ahead of the system time that timers live on
+	// TimeoutS is the configured exchange timeout in seconds (0 = 60, which is also the library's default; 7 = a value
+	// that differs from every default and constant in the code, so that a bound taken from anywhere else shows).
+	TimeoutS int `json:"timeout_s,omitempty"`
+	// StallWrite k>0: the peer stops reading before the client's k-th message of the targeted exchange (1..3), so that
+	// this write does not complete (full send buffer) - the other way in which a peer "stops responding" at a step.
+	StallWrite int `json:"stall_write,omitempty"`
+}
+
+func timeoutOf(p params) time.Duration {
+	if p.TimeoutS > 0 {
+		return time.Duration(p.TimeoutS) * time.Second
+	}
+	return defaultExchangeTimeout
+}
+
+// spy is the client's end of the wire; it records which deadline every write of an unencrypted (exchange) frame was
+// given and makes the chosen one stall.
+type spy struct {
+	*sx.PipeEnd
+	o       *sx.Obs
+	n       int // unencrypted frames sent so far
+	stallAt int // 0-based index of the unencrypted frame whose write stalls, -1 = none
+}
+
+func (s *spy) Send(ctx context.Context, b *bin.Buffer) error {
+	if len(b.Buf) >= 8 && binary.LittleEndian.Uint64(b.Buf) == 0 {
+		dl := int64(-1)
+		if d, ok := ctx.Deadline(); ok {
+			dl = int64(d.Sub(vsched.Epoch) / time.Millisecond)
+		}
+		s.o.Log("sendbegin c#%d t=%d dl=%d", s.n, vsched.Elapsed()/time.Millisecond, dl)
+		if s.n == s.stallAt {
+			s.PipeEnd.Stall = true
+		}
+		s.n++
+	}
+	return s.PipeEnd.Send(ctx, b)
 }
 
 const (
-	exchangeTimeout = 60 * time.Second
-	hour            = time.Hour
+	defaultExchangeTimeout = 60 * time.Second
+	hour                   = time.Hour
 )
 
 var errStop = errors.New("harness: stop")
@@ -56,12 +93,17 @@ func (h handler) OnSession(s mtproto.Session) error { h.o.Log("session"); return
 
 func body(p params, o *sx.Obs) {
 	priv := refexchange.TrustedKey()
-	cli, srv := sx.NewPipe(o, "c", "s")
+	pipeC, srv := sx.NewPipe(o, "c", "s")
 	srv.SkipEncrypted = true
+	cli := &spy{PipeEnd: pipeC, o: o, stallAt: -1}
+	exchangeTimeout := timeoutOf(p)
 	// which exchange on this wire is the targeted one (0-based)?
 	target := 0
 	if p.Entry == "conn-pfs-temp" {
 		target = 1 // the permanent exchange completes first
+	}
+	if p.StallWrite > 0 {
+		cli.stallAt = target*3 + p.StallWrite - 1
 	}
 	if p.SilentAt > 0 {
 		srv.Filter = func(i int, frame []byte) bool {
@@ -167,6 +209,36 @@ func check(p params, o *sx.Obs, x *vsched.Sched) kit.Result {
 	if stepStart < 0 {
 		stepStart = 0 // nothing transmitted yet: the step began with the call
 	}
+	exchangeTimeout := timeoutOf(p)
+	if p.StallWrite > 0 {
+		// the peer stopped reading: the step that started with this write must fail within the exchange timeout
+		if !o.Has("wire c stalled") {
+			if ret && retErr {
+				return kit.Result{Outcome: "failed-before-the-stalled-write", Trivial: true}
+			}
+			return kit.Bad("harness-no-stall", "the client never reached its write %d: %s", p.StallWrite, o.String())
+		}
+		begin, dl := -1, int64(-1)
+		for _, e := range o.Events {
+			var i, t int
+			var d int64
+			if scan(e, "sendbegin c#%d t=%d dl=%d", &i, &t, &d) {
+				begin, dl = t, d
+			}
+		}
+		if !ret {
+			return kit.Bad("step-unbounded", "peer stopped reading before the client's message %d (%s, caller deadline %s): the write was given the deadline %dms (-1 = none) and the client never returned; blocked: %v",
+				p.StallWrite, p.Entry, p.Deadline, dl, x.Blocked)
+		}
+		if !retErr {
+			return kit.Bad("success-with-silent-peer", "client reported success although the peer stopped reading")
+		}
+		if dl < 0 || dl-int64(begin) > int64(exchangeTimeout/time.Millisecond) {
+			return kit.Bad("write-exceeds-timeout", "peer stopped reading before the client's message %d (%s, caller deadline %s): the write began at t=%dms with deadline %dms (-1 = none); the exchange timeout is %v",
+				p.StallWrite, p.Entry, p.Deadline, begin, dl, exchangeTimeout)
+		}
+		return kit.OKo(fmt.Sprintf("stalled-write-failed-in-time after=%dms", retT-begin))
+	}
 	if p.SilentAt == 0 && len(x.TimerFires) > 0 && ret && retErr {
 		// a deviation let virtual time pass (a timer fired although threads could run): the honest peer was too
 		// slow for the client's deadline, which is a legitimate failure and not this property's subject
@@ -227,20 +299,32 @@ func main() {
 		for _, e := range []string{"exchange", "conn", "conn-pfs-perm", "conn-pfs-temp", "conn-regen-404"} {
 			for _, d := range []string{"none", "1h"} {
 				for k := 0; k <= 3; k++ {
-					scs = append(scs, params{e, k, d, false, ""})
+					scs = append(scs, params{Entry: e, SilentAt: k, Deadline: d})
 				}
 			}
 		}
 		// configurations with a skewed injected clock: the bound must not depend on the clock's offset
 		for _, e := range []string{"exchange", "conn-pfs-temp", "conn-regen-404"} {
 			for k := 0; k <= 3; k++ {
-				scs = append(scs, params{e, k, "none", false, "+1h"})
+				scs = append(scs, params{Entry: e, SilentAt: k, Deadline: "none", Skew: "+1h"})
 			}
 		}
 		// the peer answers the pending read with -404 (skipped by the client while exchanging) and then goes silent
 		for _, e := range []string{"exchange", "conn-pfs-temp", "conn-regen-404"} {
 			for k := 1; k <= 3; k++ {
-				scs = append(scs, params{e, k, "none", true, ""})
+				scs = append(scs, params{Entry: e, SilentAt: k, Deadline: "none", Pre404: true})
+			}
+		}
+		// a configured timeout that is not the library's default (60 s): the bound must be the configured value
+		for _, e := range []string{"exchange", "conn", "conn-pfs-perm", "conn-pfs-temp", "conn-regen-404"} {
+			for _, k := range []int{1, 3} { // step 1 is read through readUnencrypted, steps 2 and 3 through tryRead directly
+				scs = append(scs, params{Entry: e, SilentAt: k, Deadline: "none", TimeoutS: 7})
+			}
+		}
+		// the peer stops reading instead of stopping to write: the client's k-th write of the exchange stalls
+		for _, e := range []string{"exchange", "conn-pfs-temp", "conn-regen-404"} {
+			for k := 1; k <= 3; k++ {
+				scs = append(scs, params{Entry: e, Deadline: "none", TimeoutS: 7, StallWrite: k})
 			}
 		}
 		mk := func(p params) sx.Scenario[params] {
@@ -257,9 +341,9 @@ func main() {
 		}
 		c.Rule("fault enumeration: the peer (in-tree ServerExchange over an in-memory wire) goes silent before its k-th message, k in 0(honest)..3, for 5 entry points "+
 			"{ClientExchange.Run, Conn.Run non-PFS, PFS permanent exchange, PFS temporary exchange, key regeneration after transport error -404} x caller deadline "+
-			"{none, 1h}, plus 12 configurations whose injected clock runs 1h ahead of the timer clock and 9 in which the peer answers the pending read with the transport error -404 before going silent; ExchangeTimeout 60s, every other timer >= 1h, virtual clock; schedules: quick = the default schedule; thorough = for the direct ClientExchange.Run entry additionally every schedule with <= %d preemption/early-timer "+
-			"deviation(s) and <= 1 non-default free choice. Oracle: the client returns an error no later than 60s of virtual time after its last "+
-			"transmission; 'no enabled thread and no armed timer' or a later return is the violation. Honest runs (k=0) must succeed.", bound)
+			"{none, 1h}, plus 12 configurations whose injected clock runs 1h ahead of the timer clock and 9 in which the peer answers the pending read with the transport error -404 before going silent, 10 with a configured ExchangeTimeout of 7s (not the library default; 5 entry points x silent before message 1 or 3) and 9 in which the peer stops *reading* before the client's k-th message, k in 1..3, so that this write stalls (entries ClientExchange.Run, PFS temporary, regeneration; timeout 7s); ExchangeTimeout 60s unless stated, every other timer >= 1h, virtual clock; schedules: quick = the default schedule; thorough = for the direct ClientExchange.Run entry additionally every schedule with <= %d preemption/early-timer "+
+			"deviation(s) and <= 1 non-default free choice. Oracle: the client returns an error, and the wait the peer never ended (the client's last Recv, or the stalled Send) was given a deadline no later than the configured timeout after it began; "+
+			"'no enabled thread and no armed timer' (never returning) or a later/no deadline is the violation. Honest runs (k=0) must succeed.", bound)
 		c.Assume("virtual time; real 2048-bit crypto on both sides (about 0.1-0.3 s per exchange), hence the small deviation bound")
 		_ = strings.Join
 		if c.Fork(len(scs), 16) {
